@@ -526,5 +526,5 @@ func init() {
 		},
 		Required: []string{"cl.q", "cl.recv", "cl.await.converged", "cl.await.errors", "cl.await.timeout", "cl.after"},
 	}
-	props["C13"] = &PropSpec{Mode: "client", Diffs: []string{"cl."}, Monitors: []string{"c13"}}
+	props["C13"] = &PropSpec{Mode: "client", Extra: []string{"clientfault"}, Diffs: []string{"cl."}, Monitors: []string{"c13"}}
 }
